@@ -17,10 +17,18 @@ func typesPointer(t types.Type) types.Type { return types.NewPointer(t) }
 var InitPkgs = []string{"bufio", "math/bits", "sort", "container/heap", "errors", "internal/filepathlite", "path/filepath", "unicode/utf8", "strings", "bytes", "github.com/krotik/common/errorutil", "github.com/krotik/common/stringutil", "github.com/krotik/common/sortutil", "github.com/krotik/common/datautil", "github.com/krotik/ecal/zzverif", "github.com/krotik/ecal/parser", "github.com/krotik/ecal/engine/pubsub", "github.com/krotik/ecal/engine/pool", "github.com/krotik/ecal/engine", "github.com/krotik/ecal/config", "github.com/krotik/ecal/util", "github.com/krotik/ecal/scope", "github.com/krotik/ecal/stdlib", "github.com/krotik/ecal/interpreter", "io", "github.com/krotik/common/fileutil", "github.com/krotik/ecal/cli/tool"}
 
 var interpreted = []string{
-	"github.com/krotik/ecal/", "github.com/krotik/common/", "unicode/utf8", "errors", "strings", "sort", "container/heap", "bytes", "internal/stringslite", "io", "path/filepath", "internal/filepathlite", "os", "bufio", "math/bits", "slices", "cmp", "path",
+	"github.com/krotik/ecal/", "github.com/krotik/common/", "unicode/utf8", "errors", "strings", "sort", "container/heap", "bytes", "internal/stringslite", "io", "path/filepath", "internal/filepathlite", "os", "bufio", "math/bits", "slices", "cmp", "path", "sync/atomic", "io/ioutil",
 }
 
+// ExtraInterp: further packages (in dependency order) a job asks to be interpreted and initialised.
+var ExtraInterp []string
+
 func defaultInterp(p string) bool {
+	for _, pre := range ExtraInterp {
+		if p == pre {
+			return true
+		}
+	}
 	for _, pre := range interpreted {
 		if p == pre || (strings.HasSuffix(pre, "/") && strings.HasPrefix(p, pre)) {
 			return true
@@ -73,7 +81,7 @@ func Load(dir string, overlay map[string][]byte, patterns ...string) (*Exec, []*
 	// run package initializers concretely; resulting heap becomes the frozen base
 	ex.InitMode = true
 	_ = spkgs
-	for _, ip := range InitPkgs {
+	for _, ip := range append(append([]string{}, ExtraInterp...), InitPkgs...) {
 		sp := prog.ImportedPackage(ip)
 		if sp == nil {
 			continue
